@@ -367,6 +367,13 @@ class Verdict:
     def violation(self, witness, description):
         self.violations.append((witness, description))
 
+    def histogram(self):
+        h = {}
+        for w, _ in self.violations:
+            k = '%s|%s' % (w.get('clause'), w.get('check', w.get('kind', '')))
+            h[k] = h.get(k, 0) + 1
+        return h
+
     def finish(self):
         """returns (exit_code, n_unlisted, n_known)"""
         known = {}
